@@ -52,13 +52,30 @@ def page_cycle(rng, size, cpp):
     return ops
 
 
+def exact_pages(rng):
+    """exactly k full pages of one class (so the last acquire retires the working page), everything released in random
+    order, query: exercises the give-back of pages when the class has no working page"""
+    size, cpp = rng.choice([(512, 7), (400, 7), (256, 15), (200, 15), (128, 31), (100, 31)])
+    k = rng.choice([1, 2, 3]) if cpp * 3 <= 64 else rng.choice([1, 2]) if cpp * 2 <= 64 else 1
+    n = cpp * k
+    ops = ["A%d:%d" % (i, size) for i in range(n)] + ["Q"]
+    order = list(range(n))
+    rng.shuffle(order)
+    ops += ["F%d" % i for i in order] + ["Q"]
+    if rng.random() < 0.5:
+        ops += ["A0:%d" % size, "F0", "Q"]
+    return ops
+
+
 def scenario(rng):
     r = rng.random()
     if r < 0.35:
         return ["SBA %d" % rng.choice([0, 1]), "MAIN " + " ".join(rand_ops(rng, rng.randint(10, 38)))]
-    if r < 0.5:
+    if r < 0.45:
         size, cpp = rng.choice([(512, 7), (256, 15), (300, 7), (129, 15)])
         return ["SBA 0", "MAIN " + " ".join(page_cycle(rng, size, cpp))]
+    if r < 0.55:
+        return ["SBA %d" % rng.choice([0, 1]), "MAIN " + " ".join(exact_pages(rng))]
     lines = ["SBA 1", "MAIN " + " ".join(rand_ops(rng, rng.randint(0, 8)))]
     for k in range(1, rng.randint(2, 3) + 1):
         lines.append("THREAD %d %s" % (k, " ".join(rand_ops(rng, rng.randint(4, 14), nslots=6, fill_heavy=True))))
@@ -106,6 +123,9 @@ def run(ctx):
     ctx.add_sample({"policy": blocks[-1][0], "scenario": blocks[-1][1]})
     rng.shuffle(blocks)
     n, acc = pipeline.drive_vsched(ctx, exe, blocks, SPEC_DIR, "SbaTrace", "Trace.cfg", label="sba", env=ENV)
+    # data-race scan on the ThreadSanitizer build (what a serialising scheduler cannot see)
+    scan = [b for b in blocks if not b[0].startswith("dfs")][: (120 if not thorough else 1500)]
+    pipeline.race_scan(ctx, "sba_scenario", "sba_scenario.c", scan)
     ctx.evaluations += n
     ctx.distinct_extra += max(0, n - len(blocks))
     ctx.extra["executions"] = n
